@@ -16,6 +16,7 @@ var storeReturnsHolding = map[string]string{
 }
 
 func c14(c *Ctx) {
+	c14CutOffset(c, "C14.5/cut-offset-is-the-first-value-of-the-tx")
 	// ---- C14.1 lock pairing in the store (ExportTx in particular) -------------------------------------
 	c.rulePairing("C14.1/lock-pairing", []string{"embedded/store"}, storeReturnsHolding)
 	// every fetchVLog is paired with a releaseVLog on all paths
@@ -312,5 +313,62 @@ func c14TxHolders(c *Ctx, r string) {
 	}
 	if n < 8 {
 		c.undecided(r, "floor", fmt.Sprintf("%d holder acquisitions found (11 in pkg/database confirmed by hand)", n))
+	}
+}
+
+// c14CutOffset: values of one transaction are appended to a value log in entry order, so the lowest offset a
+// transaction occupies is the one of its first entry; TruncateUptoTx discards each value log up to the offset found
+// for the cut transaction. The helper it uses returns the entry it was asked for (its reading loop is bounded by the
+// index parameter, not by the size of the transaction) and it is asked for entry 1.
+func c14CutOffset(c *Ctx, r string) {
+	f := c.mustFn(r, storeT+"readTxOffsetAt")
+	if f == nil {
+		return
+	}
+	var idx *ssa.Parameter
+	for _, p := range f.Params {
+		if p.Name() == "index" {
+			idx = p
+		}
+	}
+	reads := sites(f, callTo("embedded/store.(*txDataReader).readEntry"))
+	if idx == nil || len(reads) == 0 {
+		c.undecided(r, fnName(f), "index parameter or the readEntry loop not found")
+		return
+	}
+	for i, rd := range reads {
+		// the loop condition that leads to this read
+		var bounds []string
+		okb := false
+		for _, b := range f.Blocks {
+			if len(b.Instrs) == 0 || !b.Dominates(rd.Block()) || !reaches(rd.Block(), b, nil) {
+				continue
+			}
+			ifi, isIf := b.Instrs[len(b.Instrs)-1].(*ssa.If)
+			if !isIf {
+				continue
+			}
+			bo, isBo := ifi.Cond.(*ssa.BinOp)
+			if !isBo {
+				continue
+			}
+			bounds = append(bounds, desc(bo))
+			if bo.Y == ssa.Value(idx) || bo.X == ssa.Value(idx) {
+				okb = true
+			}
+		}
+		c.check(okb, r, fmt.Sprintf("%s:entries-read-bounded-by-index#%d", fnName(f), i), c.pos(rd.Pos()), "the reading loop stops at the requested entry", "the loop that reads entries is bounded by "+strings.Join(bounds, ", ")+" instead of the requested index: the entry handed back is not the one asked for, and the discard offset derived from it is past values that must stay readable")
+	}
+	n := 0
+	for _, in := range c.callSites(callTo(storeT + "readTxOffsetAt")) {
+		if fnName(topFn(in.Parent())) != storeT+"TruncateUptoTx" {
+			continue
+		}
+		n++
+		a := callOf(in).Args
+		c.check(desc(a[len(a)-1]) == "const:1", r, fmt.Sprintf("%s:asks-for-first-entry#%d", fnName(in.Parent()), n), c.pos(in.Pos()), "readTxOffsetAt(id, false, 1)", "truncation derives the discard offset from entry "+desc(a[len(a)-1])+" of the cut transaction instead of its first one")
+	}
+	if n < 1 {
+		c.undecided(r, "floor", "TruncateUptoTx no longer calls readTxOffsetAt")
 	}
 }
